@@ -28,6 +28,7 @@ func init() {
 type c06HS struct {
 	idx      int
 	spelling string
+	org      string // the organization configured when the handshake started
 	hostArg  string // what the proxy would pass to TLSForHost (CONNECT authority), "" if none
 	sni      string // what the client puts into SNI, "" if none
 	api      string // forhost | transparent
@@ -97,7 +98,7 @@ func runC06(k *kernel.K) {
 	gen := func() sp {
 		name := names[w.Draw(len(names))]
 		mixed := strings.ToUpper(name[:1]) + name[1:3] + strings.ToUpper(name[3:4]) + name[4:]
-		switch w.Pick([]int{4, 2, 2, 2, 2, 2, 2, 2, 1}) {
+		switch w.Pick([]int{4, 2, 2, 2, 2, 2, 2, 2, 1, 1, 1}) {
 		case 0:
 			return sp{"dns_sni", name + ":443", name, name}
 		case 1:
@@ -114,6 +115,10 @@ func runC06(k *kernel.K) {
 			return sp{"ipv6_bare", "fd00::9", "", "fd00::9"}
 		case 7:
 			return sp{"dns_sni_differs_from_authority", names[0] + ":443", names[1], names[1]}
+		case 9:
+			return sp{"ipv6_bracket_no_port", "[fd00::8]", "", "fd00::8"}
+		case 10:
+			return sp{"port_without_name", ":443", "", ""} // names no host: must be refused
 		}
 		return sp{"no_name_at_all", "", "", ""}
 	}
@@ -134,8 +139,32 @@ func runC06(k *kernel.K) {
 		k.Note("hs%d %s api=%s TLSForHost(%q) sni=%q expect=%q", i, h.spelling, h.api, h.hostArg, h.sni, h.expect)
 	}
 	k.Note("validity=%v org=%q ca=%s policy=%d", validity, org, caKind, n.DefaultPolicy)
+	hssAllInit := hss
 
+	// the configured organization can change while the proxy runs (never while a handshake is in
+	// flight here, so that which organization a handshake must see is unambiguous)
+	orgChangeAt := -1
+	if w.Chance(1, 4) {
+		orgChangeAt = 1 + w.Draw(5)
+	}
+	hssAll := hssAllInit
 	start := func(h *c06HS) {
+		if h.idx == orgChangeAt {
+			quiet := true
+			for _, o := range hssAll {
+				o.mu.Lock()
+				if o.started && !(o.cliDone && o.srvDone) {
+					quiet = false
+				}
+				o.mu.Unlock()
+			}
+			if quiet {
+				org = org + " (renamed)"
+				mc.SetOrganization(org)
+				k.Probe("organization_changed_between_handshakes")
+			}
+		}
+		h.org = org
 		h.started = true
 		h.startAt = time.Now()
 		cli, srv := n.Pair(fmt.Sprintf("tlscli%d", h.idx), fmt.Sprintf("mitm%d", h.idx), simnet.Addr(fmt.Sprintf("10.1.0.2:%d", 50000+h.idx)), "10.0.0.1:8080")
@@ -255,7 +284,7 @@ func runC06(k *kernel.K) {
 				continue
 			}
 			checked[h.idx] = true
-			c06Check(k, h, pool, org, validity, issued)
+			c06Check(k, h, pool, h.org, validity, issued)
 		}
 	}
 	k.AddInvariant(checkDone)
